@@ -6,6 +6,7 @@ package netsim
 
 import (
 	"fmt"
+	"runtime"
 	"runtime/debug"
 	"strings"
 	"testing"
@@ -13,6 +14,22 @@ import (
 	"verifsim/simcore"
 	"verifsim/simsched"
 )
+
+// checkResources turns a resource pile-up of the harness (goroutines left behind by
+// runs) into harness trouble (exit 2) long before the runtime gives up.
+var runsDone int
+
+func checkResources() {
+	runsDone++
+	if trace && runsDone%10000 == 0 {
+		var ms runtime.MemStats
+		runtime.ReadMemStats(&ms)
+		fmt.Printf("netsim: %d runs, %d goroutines, heap %d MiB, sys %d MiB\n", runsDone, runtime.NumGoroutine(), ms.HeapAlloc>>20, ms.Sys>>20)
+	}
+	if g := runtime.NumGoroutine(); g > 300 {
+		simcore.Harnessf("netsim: %d goroutines alive after a run: the harness leaks per-run resources", g)
+	}
+}
 
 // runBubble runs f in a synctest bubble. A panic on the bubble's main goroutine is
 // carried out of the bubble: harness trouble is re-raised as such, anything else
@@ -28,6 +45,7 @@ func runBubble(t *testing.T, f func()) (deadlock string, v *simcore.Violation) {
 		}()
 		f()
 	})
+	checkResources()
 	if pv == nil {
 		return deadlock, nil
 	}
